@@ -59,6 +59,21 @@ DISK_KEY = {
 }
 LAT_NAME = {"latency": "latency", "service_time": "service time", "processing_time": "processing time"}
 DISK_INDEX = "idx"
+# the same names in scripts that no 8-bit locale encoding covers ("any tasks": names are free text of the track author)
+UNICODE_NAMES = {
+    "t1": "gr\u00f6\u00dfen-t1", "t2": "\u68c0\u7d22-t2", "op1": "\u00f6p1", "op2": "\u043e\u043f2",
+    "j1": "\u5f02\u5e38\u68c0\u6d4b-j1", "j2": "j\u00f6b-j2", "x1": "\u0442\u0440\u0430\u043d\u0441\u0444\u043e\u0440\u043c-x1", "x2": "\u5909\u63db-x2",
+    "idx": "\u00edndice", "f1": "f\u00e4lt-f1", "f2": "\u5b57\u6bb5-f2",
+}
+
+
+def translator(names):
+    """names: "ascii" (identity) or "unicode"."""
+    if names == "unicode":
+        return lambda n: UNICODE_NAMES.get(n, n)
+    if names in (None, "ascii"):
+        return lambda n: n
+    raise tlc.MachineryError("unknown name alphabet %r" % (names,))
 
 
 def pkey(p):
@@ -66,8 +81,8 @@ def pkey(p):
     return str(float(p)).replace(".", "_")
 
 
-def label(slot):
-    """(Metric, Task) columns of the row the reporter prints for a slot."""
+def label(slot, tr=lambda n: n):
+    """(Metric, Task) columns of the row the reporter prints for a slot; tr: name alphabet (translator)."""
     g, e, k, s = slot["g"], slot["e"], slot["k"], slot["s"]
     if g == "cum":
         return "Cumulative %s %s of primary shards" % (k, s), ""
@@ -84,17 +99,17 @@ def label(slot):
     if g == "ingest":
         return INGEST_KEY[s][1], ""
     if g == "disk":
-        return "%s %s %s" % (DISK_INDEX, k, s), ""
+        return "%s %s %s" % (tr(DISK_INDEX), tr(k), s), ""
     if g == "ml":
-        return "%s ML processing time" % s.capitalize(), "j%d" % e
+        return "%s ML processing time" % s.capitalize(), tr("j%d" % e)
     if g == "transform":
-        return TRANSFORM_KEY[s][1], "x%d" % e
+        return TRANSFORM_KEY[s][1], tr("x%d" % e)
     if g == "throughput":
-        return "%s Throughput" % s.capitalize(), "t%d" % e
+        return "%s Throughput" % s.capitalize(), tr("t%d" % e)
     if g in LAT_NAME:
-        return "%sth percentile %s" % (s, LAT_NAME[g]), "t%d" % e
+        return "%sth percentile %s" % (s, LAT_NAME[g]), tr("t%d" % e)
     if g == "error_rate":
-        return "error rate", "t%d" % e
+        return "error rate", tr("t%d" % e)
     raise tlc.MachineryError("unknown slot group %r" % g)
 
 
@@ -117,7 +132,7 @@ def raw_value(slot, v, D):
 PLAIN_NAMING = {"t1": "t1", "o1": "op1", "t2": "t2", "o2": "op2", "rev": False}
 
 
-def task_record(naming, e):
+def task_record(naming, e, tr=lambda n: n):
     """op_metrics record header of entity e under a naming mode of Compare.tla (NamingSeq): "" = no "task" key at all."""
     rec = {}
     if naming["t%d" % e] != "":
@@ -125,10 +140,10 @@ def task_record(naming, e):
     rec["operation"] = naming["o%d" % e]
     if rec.get("task", rec["operation"]) != "t%d" % e:
         raise tlc.MachineryError("naming mode does not name entity %d as task t%d" % (e, e))
-    return rec
+    return {k: tr(v) for k, v in rec.items()}
 
 
-def build_results(slots, R, D, naming=None):
+def build_results(slots, R, D, naming=None, tr=lambda n: n):
     """R = {"E": [entities], "nm": naming mode, "v": [value over D or NA per slot]} -> results dict (GlobalStats.as_dict() layout)."""
     E = sorted(R["E"])
     nm = (naming or [PLAIN_NAMING])[R.get("nm", 0)]
@@ -139,9 +154,9 @@ def build_results(slots, R, D, naming=None):
         res[key] = []
     for key in DISK_KEY.values():
         res[key] = []
-    tasks = {e: dict(task_record(nm, e), throughput={"min": None, "mean": None, "median": None, "max": None, "unit": "docs/s"},
+    tasks = {e: dict(task_record(nm, e, tr), throughput={"min": None, "mean": None, "median": None, "max": None, "unit": "docs/s"},
                      latency={}, service_time={}, processing_time={}, error_rate=None, duration=1000) for e in E}
-    jobs = {e: {"job": "j%d" % e, "min": None, "mean": None, "median": None, "max": None, "unit": "ms"} for e in E}
+    jobs = {e: {"job": tr("j%d" % e), "min": None, "mean": None, "median": None, "max": None, "unit": "ms"} for e in E}
     for i, slot in enumerate(slots):
         g, e, k, s = slot["g"], slot["e"], slot["k"], slot["s"]
         if e != 0 and e not in E:
@@ -166,11 +181,11 @@ def build_results(slots, R, D, naming=None):
             res[INGEST_KEY[s][0]] = x
         elif g == "disk":
             if x is not None:
-                res[DISK_KEY[s]].append({"index": DISK_INDEX, "field": k, "value": x, "unit": "byte"})
+                res[DISK_KEY[s]].append({"index": tr(DISK_INDEX), "field": tr(k), "value": x, "unit": "byte"})
         elif g == "ml":
             jobs[e][s] = x
         elif g == "transform":
-            res[TRANSFORM_KEY[s][0]].append({"id": "x%d" % e, "mean": x, "unit": slot["unit"]})
+            res[TRANSFORM_KEY[s][0]].append({"id": tr("x%d" % e), "mean": x, "unit": slot["unit"]})
         elif g == "throughput":
             tasks[e]["throughput"][s] = x
         elif g in LAT_NAME:
@@ -241,13 +256,15 @@ def over_d(x, D):
 
 
 class Runner:
-    def __init__(self, slots, root, naming=None):
+    def __init__(self, slots, root, naming=None, names="ascii"):
         from esrally import config, metrics, reporter
         from esrally.utils import console
 
         self.slots = slots
         self.naming = naming or [PLAIN_NAMING]
-        self.by_label = {label(s): i + 1 for i, s in enumerate(slots)}
+        self.names = names
+        self.tr = translator(names)
+        self.by_label = {label(s, self.tr): i + 1 for i, s in enumerate(slots)}
         if len(self.by_label) != len(slots):
             raise tlc.MachineryError("slot labels are not unique")
         self.root = root
@@ -318,8 +335,8 @@ class Runner:
     def run(self, B, C, proc, D):
         """One `esrally compare`: returns the item fields for TraceCompare.tla."""
         cfg = self.cfg(proc)
-        self.store(cfg, "baseline", build_results(self.slots, B, D, self.naming))
-        self.store(cfg, "contender", build_results(self.slots, C, D, self.naming))
+        self.store(cfg, "baseline", build_results(self.slots, B, D, self.naming, self.tr))
+        self.store(cfg, "contender", build_results(self.slots, C, D, self.naming, self.tr))
         store = self.metrics.race_store(cfg)
         r1, r2 = store.find_by_race_id("baseline"), store.find_by_race_id("contender")
         bs, cs = self.metrics.GlobalStats(r1.results), self.metrics.GlobalStats(r2.results)
@@ -345,15 +362,24 @@ class Runner:
             os.remove(path)
         cfg = self.cfg(proc, fmt, path)
         buf = io.StringIO()
-        with contextlib.redirect_stdout(buf):
-            self.reporter.ComparisonReporter(cfg).report(r1, r2)
+        failure = None
+        try:
+            with contextlib.redirect_stdout(buf):
+                self.reporter.ComparisonReporter(cfg).report(r1, r2)
+        except Exception as ex:  # pylint: disable=broad-except
+            failure = ex
         console_text = buf.getvalue()
-        with open(path, "r", encoding="utf-8", newline="") as f:
-            file_text = f.read()
         banner = self.reporter.FINAL_SCORE
         at = console_text.find(banner)
+        if failure is not None and (at < 0 or "Metric" not in console_text[at:]):
+            raise failure  # nothing was reported at all: the comparison did not complete
         if at < 0:
             raise tlc.MachineryError("banner not found in console output")
+        # the console table is out; whatever the report file contains now (possibly truncated) is the file output
+        file_text = ""
+        if os.path.exists(path):
+            with open(path, "r", encoding="utf-8", errors="replace", newline="") as f:
+                file_text = f.read()
         nl = console_text.index("\n", at + len(banner))
         table_text = console_text[nl + 1 :]
         if fmt == "csv":
@@ -365,6 +391,7 @@ class Runner:
         eq = strip_ansi(table_text) == file_cmp + "\n"
         crows_raw = _rows(table_text, fmt)
         return {
+            "exc": "" if failure is None else "%s: %s" % (type(failure).__name__, str(failure)[:160]),
             "eq": bool(eq),
             "esc": file_text.count("\x1b"),
             "frows": _rows(file_text, fmt),
